@@ -511,6 +511,17 @@ func c24Run(c *fx.Ctx) {
 				v, _ := new(big.Int).SetString(m, 10)
 				base := map[string]int{"": 10, "0b": 2, "0B": 2, "0o": 8, "0O": 8, "0x": 16, "0X": 16}[pf.p]
 				c24Number(c, sign+pf.p+v.Text(base), "integer-boundary:"+strings.ToLower(pf.p))
+				// leading zeros in front of wide literals (the int64 fast path and the big-integer path must agree on the base)
+				for _, lz := range []string{"0", "00", "0_0", "000000"} {
+					c24Number(c, sign+pf.p+lz+v.Text(base), "integer-boundary-leading-zeros:"+strings.ToLower(pf.p))
+				}
+			}
+			if pf.p == "" {
+				for _, m := range []string{"123456701234567012345670", "7777777777777777777777", "1000000000000000000000", "777", "12345670", "340282366920938463463374607431768211456"} {
+					for _, lz := range []string{"0", "00", "0_", "000_000"} {
+						c24Number(c, sign+lz+m, "integer-decimal-leading-zeros")
+					}
+				}
 			}
 		}
 	}
